@@ -506,10 +506,8 @@ func encryptedFrom(fn *ssa.Function, fc *FuncCtx, v ssa.Value, signed *ssa.Call)
 		if c.Call.Args[1] == ssa.Value(signed) {
 			doc := c.Call.Args[0]
 			for _, lf := range rootLeaves(pt, map[ssa.Value]bool{}) {
-				if e2, ok := lf.(*ssa.Extract); ok {
-					if w, ok := e2.Tuple.(*ssa.Call); ok && calleeIs(w, "(*"+etreePath+".Document).WriteToBytes") && w.Call.Args[0] == doc {
-						okRoot = true
-					}
+				if d2, _, _ := serialisationOf(fc.A.P, lf); d2 != nil && d2 == doc {
+					okRoot = true
 				}
 			}
 		}
@@ -549,10 +547,8 @@ func checkC06Post(r *Report, p *Prog) {
 			buf := c.Call.Args[1]
 			for _, sr := range methodCallsOn(pb, "(*"+etreePath+".Document).SetRoot") {
 				if strings.HasSuffix(fc.AP(sr.Call.Args[1]), "IdpAuthnRequest.ResponseEl") {
-					if ex, okx := buf.(*ssa.Extract); okx {
-						if w, okw := ex.Tuple.(*ssa.Call); okw && calleeIs(w, "(*"+etreePath+".Document).WriteToBytes") && w.Call.Args[0] == sr.Call.Args[0] {
-							ok = true
-						}
+					if d2, _, _ := serialisationOf(p, buf); d2 != nil && d2 == sr.Call.Args[0] {
+						ok = true
 					}
 				}
 			}
